@@ -34,6 +34,12 @@ func jsonText() *rapid.Generator[string] {
 	return rapid.OneOf(hx.TextPlain(), hx.TextAny().Filter(utf8.ValidString))
 }
 
+// actorText: actor names (the SPDX library reads them from the raw JSON text) incl. characters that encoders
+// treat differently: HTML-sensitive ones, U+2028/2029 (always escaped by Go's encoder), non-BMP, quotes
+func actorText() *rapid.Generator[string] {
+	return rapid.OneOf(hx.TextName(), rapid.SampledFrom([]string{"AT&T", "a<b>", "line\u2028sep", "para\u2029sep", "q\"uote", "back\\slash", "tab\there", "\U0001F600 inc", "é (e@x.y)", "x/y"}))
+}
+
 func genCDXJSON(t *rapid.T) genDoc {
 	g := genDoc{Kind: "cyclonedx", Resolving: true}
 	ver := rapid.SampledFrom([]string{"1.3", "1.4", "1.5"}).Draw(t, "ver")
@@ -183,10 +189,10 @@ func genSPDXJSON(t *rapid.T) genDoc {
 			p.Members = append(p.Members, hx.M("versionInfo", hx.JString(jsonText().Draw(t, "pv"))))
 		}
 		if rapid.Bool().Draw(t, "psup") {
-			p.Members = append(p.Members, hx.M("supplier", hx.JString(rapid.SampledFrom([]string{"Person: ", "Organization: "}).Draw(t, "st")+hx.TextName().Draw(t, "sname"))))
+			p.Members = append(p.Members, hx.M("supplier", hx.JString(rapid.SampledFrom([]string{"Person: ", "Organization: "}).Draw(t, "st")+actorText().Draw(t, "sname"))))
 		}
 		if rapid.Bool().Draw(t, "pori") {
-			p.Members = append(p.Members, hx.M("originator", hx.JString(rapid.SampledFrom([]string{"Person: ", "Organization: "}).Draw(t, "ot")+hx.TextName().Draw(t, "oname"))))
+			p.Members = append(p.Members, hx.M("originator", hx.JString(rapid.SampledFrom([]string{"Person: ", "Organization: "}).Draw(t, "ot")+actorText().Draw(t, "oname"))))
 		}
 		if rapid.Bool().Draw(t, "pcs") {
 			p.Members = append(p.Members, hx.M("checksums", hx.JArray(hx.JObject(hx.M("algorithm", hx.JString(rapid.SampledFrom([]string{"SHA256", "MD5", "BLAKE3", "ADLER32"}).Draw(t, "palg"))), hx.M("checksumValue", hx.JString("00ff"))))))
@@ -231,7 +237,7 @@ func genSPDXJSON(t *rapid.T) genDoc {
 	}
 	root := hx.JObject(hx.M("spdxVersion", hx.JString("SPDX-2.3")), hx.M("dataLicense", hx.JString("CC0-1.0")), hx.M("SPDXID", hx.JString("SPDXRef-DOCUMENT")),
 		hx.M("name", hx.JString(jsonText().Draw(t, "docname"))), hx.M("documentNamespace", hx.JString("https://example.com/"+rapid.StringMatching(`[a-z0-9]{1,8}`).Draw(t, "ns"))),
-		hx.M("creationInfo", hx.JObject(hx.M("creators", hx.JArray(hx.JString("Tool: t"), hx.JString("Person: "+hx.TextName().Draw(t, "creator")))), hx.M("created", hx.JString("2024-01-02T03:04:05Z")))))
+		hx.M("creationInfo", hx.JObject(hx.M("creators", hx.JArray(hx.JString("Tool: t"), hx.JString("Person: "+actorText().Draw(t, "creator")))), hx.M("created", hx.JString("2024-01-02T03:04:05Z")))))
 	if rapid.Bool().Draw(t, "dd") {
 		root.Members = append(root.Members, hx.M("documentDescribes", hx.JArray(hx.JString(ref(rapid.SampledFrom(targets).Draw(t, "ddroot"))))))
 	}
